@@ -6,7 +6,7 @@ established by exhaustive evaluation over all (reg, base & 7, displacement varia
 `cdisp8_sound` + an exhaustively checked integer bridge (`sext8_scaled`). Spec side: `parse_*_mem`, `checkMem_base64`,
 `vex_rvm_mem_formOk` (Lemmas/X86Parse.lean). Composition: `vexM_rvm_formOk_*`.
 -/
-import AsmjitVerif.Props.C01Front
+import AsmjitVerif.Props.C01Rows
 set_option linter.constructorNameAsVariable false
 namespace AsmjitVerif.Props.C01
 open Spec.X86 Model.X86 AsmjitVerif.Lemmas.X86Parse
@@ -122,50 +122,60 @@ def xMb (opcode reg vvvvv rb : BitVec 32) : BitVec 32 :=
 theorem xMb_eq_xR (opcode reg vvvvv rb : BitVec 32) (hb : rb < 16#32) : xMb opcode reg vvvvv rb = xR opcode 0#32 reg vvvvv rb 0#32 := by
   simp only [xMb, xR]; bv_decide
 
-/-- `EmitVexEvexM` = prefix part, then `EmitModSib` with the (adjusted) opcode word -/
-theorem emitVexEvexM_base_eq (c : Model.X86.Ctx) (opcode reg vvvvv rb : BitVec 32) (size : Nat) (d imm : BitVec 64) (n : Nat) (seg : Nat) (a32 : Bool)
-    (hm : c.mode64 = true) (hpe : c.preferEvex = false) (hk : c.extraId = 0#32) (hvs : c.vsib = false) :
-    emitVexEvexM c opcode 0#32 (reg + (vvvvv <<< 7)) (memBase size rb d seg a32) imm n =
-      (match vexEvexMPrefix c (if c.vexFlag then xMb opcode reg vvvvv rb else xMb opcode reg vvvvv rb ||| 0x80000000#32) opcode 0#32 (memBase size rb d seg a32) with
+/-- the options word of a {z} decoration -/
+def zOpt (z : Bool) : BitVec 32 := if z then oZMask else 0#32
+
+/-- the prefix word `x` of `EmitVexEvexM` for a base-only operand with mask register `aaa` -/
+def xMbK (opcode reg vvvvv rb aaa : BitVec 32) (z : Bool) : BitVec 32 :=
+  (((reg + (vvvvv <<< 7)) <<< 4) &&& 0xF980#32) ||| ((rb <<< 2) &&& 0x20#32) ||| extractLLMMMMM opcode (zOpt z) ||| (aaa <<< 16)
+
+/-- `EmitVexEvexM` = prefix part, then `EmitModSib` with the (adjusted) opcode word; mask register `aaa`, {z} as option -/
+theorem emitVexEvexM_base_eq (c : Model.X86.Ctx) (opcode reg vvvvv rb aaa : BitVec 32) (z : Bool) (size : Nat) (d imm : BitVec 64) (n : Nat) (seg : Nat) (a32 : Bool)
+    (hm : c.mode64 = true) (hpe : c.preferEvex = false) (hk : c.extraId = aaa) (hvs : c.vsib = false) :
+    emitVexEvexM c opcode (zOpt z) (reg + (vvvvv <<< 7)) (memBase size rb d seg a32) imm n =
+      (match vexEvexMPrefix c ((if c.vexFlag then xMbK opcode reg vvvvv rb aaa z else xMbK opcode reg vvvvv rb aaa z ||| 0x80000000#32) ||| zOpt z) opcode (zOpt z)
+          (memBase size rb d seg a32) with
        | .error e => .error e
-       | .ok v => emitModSib c (segmentPrefix seg ++ aoBytes a32 ++ v.1) (segmentPrefix seg).length v.2 0#32 ((reg + (vvvvv <<< 7)) &&& 7#32) rb 0#32
+       | .ok v => emitModSib c (segmentPrefix seg ++ aoBytes a32 ++ v.1) (segmentPrefix seg).length v.2 (zOpt z) ((reg + (vvvvv <<< 7)) &&& 7#32) rb 0#32
                     (rmInfoBase a32) (memBase size rb d seg a32) imm n false) := by
   unfold emitVexEvexM
-  cases a32
-  · simp only [memBase, xMb, aoBytes, rmInfoBase, Bool.false_eq_true, ↓reduceIte]
-    simp only [rtLabel, hk, hpe, hvs, memInfo_gp64, Model.X86.Ctx.aoMask, hm, oZMask, oER, oSAE, oVex, oVex3]
+  cases z <;> cases a32
+  all_goals
+    simp only [memBase, xMbK, aoBytes, rmInfoBase, zOpt, Bool.false_eq_true, ↓reduceIte]
+    simp only [rtLabel, hk, hpe, hvs, memInfo_gp64, memInfo_gp32, Model.X86.Ctx.aoMask, hm, oZMask, oER, oSAE, oVex, oVex3]
     simp only [BitVec.ofNat_toNat, BitVec.setWidth_eq, BitVec.zero_and, BitVec.zero_or, BitVec.or_zero, bne_self_eq_false, Bool.false_eq_true, ↓reduceIte,
       Bool.false_and, gt_iff_lt, Nat.lt_irrefl, Nat.not_lt_zero, BitVec.zero_shiftLeft, BitVec.and_zero, bind, Except.bind, Bool.not_false,
-      show (1 < 6) = True from by decide, show (0x0D#32 &&& 0x80#32 != 0#32) = false from by decide, List.nil_append, List.length_nil, List.append_nil,
-      show ((0:Nat) != 0) = false from by decide]
-    generalize vexEvexMPrefix c _ opcode 0#32 _ = r
+      show (1 < 6) = True from by decide, show (1 < 5) = True from by decide, show (0x0D#32 &&& 0x80#32 != 0#32) = false from by decide,
+      show (0x8D#32 &&& 0x80#32 != 0#32) = true from by decide, List.nil_append, List.length_nil, List.append_nil,
+      show ((0:Nat) != 0) = false from by decide,
+      show (0x800000#32 &&& (0x800000#32 ||| 0x40000#32 ||| 0x80000#32) != 0#32) = true from by decide,
+      show (0x800000#32 &&& (0x40000#32 ||| 0x80000#32) != 0#32) = false from by decide,
+      show (0x800000#32 &&& 0x800000#32) = 0x800000#32 from by decide,
+      show (0x800000#32 &&& (0x800#32 ||| 0x400#32)) = 0#32 from by decide]
+    generalize vexEvexMPrefix c _ opcode _ _ = r
     cases r <;> rfl
-  · simp only [memBase, xMb, aoBytes, rmInfoBase, ↓reduceIte]
-    simp only [rtLabel, hk, hpe, hvs, memInfo_gp32, Model.X86.Ctx.aoMask, hm, oZMask, oER, oSAE, oVex, oVex3]
-    simp only [BitVec.ofNat_toNat, BitVec.setWidth_eq, BitVec.zero_and, BitVec.zero_or, BitVec.or_zero, bne_self_eq_false, Bool.false_eq_true, ↓reduceIte,
-      Bool.false_and, gt_iff_lt, Nat.lt_irrefl, Nat.not_lt_zero, BitVec.zero_shiftLeft, BitVec.and_zero, bind, Except.bind, Bool.not_false,
-      show (1 < 5) = True from by decide, show (0x8D#32 &&& 0x80#32 != 0#32) = true from by decide, List.nil_append, List.length_nil, List.append_nil,
-      show ((0:Nat) != 0) = false from by decide]
-    generalize vexEvexMPrefix c _ opcode 0#32 _ = r
-    cases r <;> rfl
-
 theorem cdisp8Shl_low (t : BitVec 32) : ∃ v : BitVec 32, cdisp8Shl t = v <<< 13 := ⟨_, rfl⟩
 
-/-- the prefix part without broadcast: EVEX (opcode word adjusted by the compressed-displacement table), VEX3 or VEX2 (CDSHL cleared) -/
-theorem vexEvexMPrefix_nobcst (c : Model.X86.Ctx) (x opcode : BitVec 32) (m : Mem) (hx20 : x &&& 0x00180040#32 = 0#32) :
-    vexEvexMPrefix c x opcode 0#32 m =
-      .ok (if x &&& 0x80D78150#32 ≠ 0#32 then
+/-- the prefix part without broadcast and without a VSIB index ≥ 16: EVEX (opcode word adjusted by the compressed-displacement table), VEX3 or
+VEX2 (CDSHL cleared); `options` without the `vex3` bit -/
+theorem vexEvexMPrefix_nobcst (c : Model.X86.Ctx) (x opcode options : BitVec 32) (m : Mem) (hx20 : x &&& 0x00180000#32 = 0#32)
+    (hopt : options &&& 0x400#32 = 0#32) :
+    vexEvexMPrefix c x opcode options m =
+      .ok (if x &&& 0x80D78110#32 ≠ 0#32 then
              (le32 (evexWord x opcode) ++ [opcode.truncate 8],
               opcode + cdisp8Shl (((opcode >>> 13) &&& 0x18#32) + ((opcode >>> 25) &&& 0x04#32) + ((evexWord x opcode >>> 29) &&& 0x3#32)))
            else if vexPrep x opcode 0#32 &&& 0x8000807E#32 ≠ 0#32 then
              (le32 (vex3Word (vexPrep x opcode 0#32) (opcode &&& ~~~kCDSHL_Mask)), opcode &&& ~~~kCDSHL_Mask)
            else ([0xC5#8, (vex2Byte (vexPrep x opcode 0#32)).truncate 8, opcode.truncate 8], opcode &&& ~~~kCDSHL_Mask)) := by
-  have hiff : (x &&& 0x80DF8110#32 = 0#32) ↔ (x &&& 0x80D78150#32 = 0#32) := by
+  have hiff : (x &&& 0x80DF8110#32 = 0#32) ↔ (x &&& 0x80D78110#32 = 0#32) := by
     constructor <;> intro h <;> bv_decide
   have hb28 : ((evexWord x opcode &&& 0x10000000#32) != 0#32) = false := by
     simp only [evexWord]; bv_decide
+  have hvp : vexPrep x opcode options = vexPrep x opcode 0#32 := by
+    simp only [vexPrep, oVex3]; bv_decide
   unfold vexEvexMPrefix
-  by_cases h : x &&& 0x80D78150#32 = 0#32
+  rw [hvp]
+  by_cases h : x &&& 0x80D78110#32 = 0#32
   · have h' : x &&& 0x80DF8110#32 = 0#32 := hiff.mpr h
     simp only [h', h, bne_self_eq_false, Bool.false_eq_true, ↓reduceIte, ne_eq, not_true_eq_false]
     by_cases h3 : vexPrep x opcode 0#32 &&& 0x8000807E#32 = 0#32
@@ -176,7 +186,6 @@ theorem vexEvexMPrefix_nobcst (c : Model.X86.Ctx) (x opcode : BitVec 32) (m : Me
     simp [h', h, hb28]
     obtain ⟨v, hv⟩ := cdisp8Shl_low ((opcode >>> 13 &&& 24#32) + (opcode >>> 25 &&& 4#32) + (evexWord x opcode >>> 29 &&& 3#32))
     rw [hv]; bv_decide
-
 
 /-- spec-side `[base64 + disp]` operand -/
 def memOpBase (size : Nat) (rb : BitVec 32) (d : BitVec 64) (seg : Nat := 0) (a32 : Bool := false) : MemOp :=
@@ -210,11 +219,11 @@ theorem memHead_factsBV (opReg7 rb7 : BitVec 32) (v : Nat) (ho : opReg7 < 8#32) 
 def evexCdOpcodeOf (opcode : BitVec 32) : BitVec 32 :=
   opcode + cdisp8Shl (((opcode >>> 13) &&& 0x18#32) + ((opcode >>> 25) &&& 0x04#32) + ((opcode >>> 29) &&& 0x3#32))
 
-theorem evexCdOpcode_eq (opcode reg vvvvv rb : BitVec 32) (hr : reg < 32#32) (hv : vvvvv < 32#32) (hb : rb < 16#32) (hxop : opcode &&& 0x800#32 = 0#32) :
-    evexCdOpcode opcode (evexWord (xR opcode 0#32 reg vvvvv rb 0#32) opcode) = evexCdOpcodeOf opcode := by
-  obtain ⟨-, -, -, -, -, -, -, -, -, -, -, -, e29, -, -, -⟩ :=
-    vex_evex_r_roundtrip opcode 0#32 reg vvvvv rb 0#32 hr hv (by bv_decide) (by decide) hxop (by decide)
-  have : (evexWord (xR opcode 0#32 reg vvvvv rb 0#32) opcode >>> 29) &&& 0x3#32 = (opcode >>> 29) &&& 0x3#32 := by bv_decide
+theorem evexCdOpcode_eq (opcode reg vvvvv xb aaa : BitVec 32) (z : Bool) (hr : reg < 32#32) (hv : vvvvv < 32#32) (hb : xb < 32#32) (ha : aaa < 8#32)
+    (hxop : opcode &&& 0x800#32 = 0#32) :
+    evexCdOpcode opcode (evexWord (xR opcode 0#32 reg vvvvv xb aaa ||| zOpt z) opcode) = evexCdOpcodeOf opcode := by
+  have : (evexWord (xR opcode 0#32 reg vvvvv xb aaa ||| zOpt z) opcode >>> 29) &&& 0x3#32 = (opcode >>> 29) &&& 0x3#32 := by
+    cases z <;> simp only [zOpt, oZMask, evexWord, xR, extractLLMMMMM, kLL_Mask, kMM_Mask, oEvex] <;> bv_decide
   simp only [evexCdOpcode, evexCdOpcodeOf, this]
 
 end AsmjitVerif.Props.C01
